@@ -247,6 +247,7 @@ def run(ctx):
     keyword_matching_polarity(ctx)
     unchecked_extractor_needs_const_ok(ctx)
     guarded_overload_does_not_end_the_dispatch(ctx)
+    temporary_argument_tuples_are_released(ctx)
 
 
 def _canon_arm(db, f, stmts, label):
@@ -656,3 +657,40 @@ def guarded_overload_does_not_end_the_dispatch(ctx):
                        "`%s = true` is behind `!%s`" % (r.get("n"), nm) if ok else
                        "`%s = true` can be reached with `%s` true: an overload written under a run-time `if` ends the dispatch" % (r.get("n"), nm))
     ctx.floor("R02.11", "dead-code flags set in loops that write guarded overloads", n, 2)
+
+
+def temporary_argument_tuples_are_released(ctx):
+    """R02.12: slot wrappers whose Python signature has separate arguments (mp_ass_subscript, __setattr__, the ternary
+    number slots, property setters with a key) pack them into a temporary tuple - `PyObject *args = PyTuple_Pack(...)` is
+    written - and then let write_function_forset() write the overload dispatch on `args`.  Every return written INSIDE
+    that dispatch leaves the wrapper, so it must release the tuple first: the dispatch is asked for with RF_decref_args.
+    The `Py_DECREF(args)` written after the dispatch only serves the fall-through.  (Seed S9-C02: RF_decref_args dropped
+    for mp_ass_subscript; every successful `obj[key] = value` leaked the key and the value.)"""
+    db = ctx.db
+    ctx.rule("R02.12", "in the generator, a write_function_forset(...) that follows the emission of `args = PyTuple_Pack/PyTuple_New` in the same block passes return flags that include RF_decref_args")
+    n = 0
+    for f in db.functions:
+        if not f.name.startswith("InterfaceMakerPythonNative::"):
+            continue
+        for blk in f.walk():
+            if blk.get("k") != "block":
+                continue
+            packed = False
+            for st in blk.get("s", []):
+                if st.get("k") not in ("if", "for", "while", "forrange", "switch", "block", "case", "default", "do") and \
+                   any(z.get("k") == "str" and "args = PyTuple_" in (z.get("v") or "") for z in walk(st)):
+                    packed = True
+                    continue
+                if not packed:
+                    continue
+                for c in walk(st):
+                    if c.get("k") == "call" and callee_short(c) == "write_function_forset":
+                        n += 1
+                        flags = [a for a in c.get("a", []) if any(z.get("k") == "ref" and "::RF_" in (z.get("n") or "") or (z.get("k") == "ref" and (z.get("n") or "").startswith("RF_")) for z in walk(a)) or
+                                 (local_ref(a) or {}).get("n") == "return_flags"]
+                        ok = any(any(z.get("k") == "ref" and (z.get("n") or "").endswith("RF_decref_args") for z in walk(a)) for a in flags)
+                        ctx.ob("R02.12", "%s@%s|dispatch-on-packed-args|releases-the-tuple" % (f.name.split("::")[-1], f.loc(c).split(":")[-1]), ok, f.loc(c),
+                               "the dispatch written on the temporary tuple is asked to release it before each return" if ok else
+                               "the dispatch on the temporary `args` tuple returns without releasing it")
+                        packed = False
+    ctx.floor("R02.12", "dispatches written on a packed argument tuple", n, 3)
